@@ -37,10 +37,17 @@ RULE = ("cases = (class, definition, expectation): valid-by-documentation defini
         "(shaped random, adversarial name pools, with and without rows keyed by non-states), every single-rule "
         "corruption operator at every position of such a definition (bounded-exhaustive over positions), random "
         "pairs of corruptions; then (class, accepted definition, operation, arguments) for every public operation "
-        "under the four option combinations. Non-trivial: the definition has ≥2 states and ≥1 transition; distinct "
+        "under the four option combinations; DEGENERATE accepted definitions of all 8 classes (fixed list of shapes in "
+        "harness/gen_degenerate.py: single-state machines, transitions={}, states without rows, empty / full final sets, "
+        "lambda-only tables, empty target sets, alphabets {a,b} / {a} / {}) through every unary operation and run, and "
+        "for DFA / NFA every binary method on ordered pairs (degenerate × degenerate: a seeded sample in quick, all in "
+        "thorough; degenerate × shaped-random in both orders), each call under all four option combinations with the "
+        "result re-validated. Non-trivial: the definition has ≥2 states and ≥1 transition; distinct "
         "= distinct (class, encoded definition, expectation/op) tuples")
 ASSUMPTIONS = [
     "definitions are type-correct (the container shapes of the class docstrings); names hashable",
+    "empty input alphabets are inside the domain (validate() accepts them); the one operation family that fails on them — "
+    "DFA.successor(s) / predecessor(s): IndexError — is the open finding C14:empty-alphabet, reported under that key",
     "input / stack / tape symbols are single characters (review finding X3, a documented domain restriction: the library reads "
     "an input *str* character by character, so a multi-character symbol such as 'ab' — which validate() accepts — is only "
     "usable with list inputs, d.accepts_input(['ab']); words_of_length joins symbols into a str that `in` then reads per "
@@ -164,6 +171,7 @@ def outcome_key(r):
 
 KEY_AS_NTM_MARKS = "C17:mark-symbol-in-alphabet-or-input"
 KEY_TEMPORARY = "C06:cached-query-on-temporary"
+KEY_EMPTY_ALPHABET = "C14:empty-alphabet"
 
 
 def finding_for(cls: str, kw, opname: str, exc: BaseException, default: Optional[str],
@@ -174,6 +182,9 @@ def finding_for(cls: str, kw, opname: str, exc: BaseException, default: Optional
     if (opname == "MNTM.read_input_as_ntm" and type(exc).__name__ == "MalformedExtendedTapeError"
             and ({"^", "_"} & set(kw.get("tape_symbols", ())) or {"^", "_"} & set(word or ""))):
         return KEY_AS_NTM_MARKS
+    if (cls == "DFA" and not kw.get("input_symbols") and type(exc).__name__ == "IndexError"
+            and opname in ("DFA.successor", "DFA.successors", "DFA.predecessor", "DFA.predecessors")):
+        return KEY_EMPTY_ALPHABET  # open finding owned by C14: the word-order queries index sorted_symbols[-1]
     return default
 
 
@@ -305,13 +316,12 @@ def describe(r):
 
 
 @guarded
-def options_check(ctx: Ctx, cls: str, kw, rng, origin: str):
+def options_check(ctx: Ctx, cls: str, kw, rng, origin: str, kw2=None):
     """(5): every operation under the four option combinations, on operands built under the
     same combination from the same definition."""
     alphabet = kw["input_symbols"]
     combos = [(True, False), (False, False), (True, True), (False, True)]
-    kw2 = None
-    if M.binary_ops(cls):
+    if M.binary_ops(cls) and kw2 is None:
         kw2 = G.rand_def(rng, cls, alphabet=sorted(alphabet))
     plan = [(n, f, 1, M.arg_pack(rng, alphabet)) for n, f in M.unary_ops(cls)] + \
            [(n, f, 2, M.arg_pack(rng, alphabet)) for n, f in M.binary_ops(cls)]
@@ -338,21 +348,121 @@ def options_check(ctx: Ctx, cls: str, kw, rng, origin: str):
             if key == bkey:
                 continue
             # literal difference: allowed only as a renaming of generated state names
-            ok = False
-            if res[0] == "ok" and bres[0] == "ok":
-                if M.is_automaton(res[1]) and M.is_automaton(bres[1]):
-                    ok = M.same_up_to_renaming(res[1], bres[1])
-                elif isinstance(res[1], str) and name.endswith("to_regex"):
-                    ok = M.regex_equiv(res[1], bres[1], alphabet)
-                elif name.endswith(("read_input", "read_input_stepwise")) and cls in ("DFA", "NFA"):
-                    ok = G.norm(res[1]) == G.norm(bres[1])
-            if ok:
+            if same_modulo_names(cls, name, res, bres, alphabet):
                 ctx.stat("options:equal_up_to_renaming")
                 continue
             ctx.prop_fail(f"{name}: result under should_validate={sv}, allow_mutable={am} differs from the default "
                           f"configuration ({describe(res)} vs {describe(bres)})",
                           dict(cls=cls, kind="options", op=name, args=a, kwargs=repr(kw),
                                rhs=repr(kw2) if ar == 2 else None, sv=sv, am=am), None)
+
+
+def same_modulo_names(cls, name, res, bres, alphabet) -> bool:
+    """Two outcomes of one operation (under two option combinations) that are not literally equal: allowed
+    only as a renaming of generated state names."""
+    if res[0] == "ok" and bres[0] == "ok":
+        if M.is_automaton(res[1]) and M.is_automaton(bres[1]):
+            return M.same_up_to_renaming(res[1], bres[1])
+        if isinstance(res[1], str) and name.endswith("to_regex"):
+            return M.regex_equiv(res[1], bres[1], alphabet)
+        if name.endswith(("read_input", "read_input_stepwise")) and cls in ("DFA", "NFA"):
+            return G.norm(res[1]) == G.norm(bres[1])
+    return False
+
+
+# ------------------------------------------------------------------ degenerate operands
+COMBOS = [(True, False), (False, False), (True, True), (False, True)]
+
+
+@guarded
+def binary_under_options(ctx: Ctx, cls: str, name: str, fn, kx, ky, a, origin: str):
+    """One binary operation on two accepted definitions under ALL FOUR option combinations (operands built
+    under the combination, operation called under it): (3) no undocumented error, (4) the returned automaton
+    passes validate() — whatever the validation switch said during the call —, (5) same outcome as in the
+    default configuration."""
+    alphabet = kx["input_symbols"]
+    same_al = set(kx["input_symbols"]) == set(ky["input_symbols"])
+    base = None
+    ok = True
+    for (sv, am) in COMBOS:
+        x, y = M.construct(cls, G._dc(kx), sv, am), M.construct(cls, G._dc(ky), sv, am)
+        if x[0] != "ok" or y[0] != "ok":
+            return
+        replay = dict(cls=cls, kind="binary_options", op=name, args=a, lhs=repr(kx), rhs=repr(ky), sv=sv, am=am,
+                      origin=origin)
+        with M.options(sv, am):
+            res = run_op(fn, x[1], y[1], a)
+        ctx.stat(f"options:sv={int(sv)},am={int(am)}")
+        if res[0] == "err":
+            if M.documented_reason(name, res[1], same_alphabet=same_al) is None:
+                ok = False
+                ctx.prop_fail(f"{name} on accepted {cls} definitions ({origin}) under should_validate={sv}, "
+                              f"allow_mutable={am} raises {type(res[1]).__name__}: {str(res[1])[:120]} — documented "
+                              f"for this operation: {M.documented_classes(name) or 'no exception'}", replay, None)
+                continue
+        elif not validate_result(ctx, name + f" ({origin}; should_validate={sv}, allow_mutable={am})", res, replay):
+            ok = False
+            continue
+        if base is None:
+            base = res
+            continue
+        if outcome_key(res) != outcome_key(base) and not same_modulo_names(cls, name, res, base, alphabet):
+            ok = False
+            ctx.prop_fail(f"{name} ({origin}): result under should_validate={sv}, allow_mutable={am} differs from "
+                          f"the default configuration ({describe(res)} vs {describe(base)})", replay, None)
+    ctx.case((cls, name, "binary_options", repr(kx), repr(ky)) if ok and len(kx["states"]) + len(ky["states"]) >= 3 else None)
+    ctx.stat(f"op:{name}:{'ok' if base is not None and base[0] == 'ok' else 'err'}")
+
+
+def degenerate_family(ctx: Ctx, rng):
+    """Smallest / emptiest accepted definitions (harness/gen_degenerate.py: single-state machines,
+    `transitions={}`, states without rows, empty final sets, empty alphabets, lambda-only tables) of all 8
+    classes: validate correspondence; every unary operation and run (use_definition), the four option
+    combinations (options_check); for DFA / NFA every binary operation on ordered PAIRS of degenerate operands
+    and on (degenerate, shaped-random) pairs in both orders, under all four option combinations."""
+    from harness import gen_degenerate as DG
+    alphabets = [("a", "b"), ("a",), ()]
+    for cls in G.CLASSES:
+        style = rng.choice(sorted(DG.NAME_STYLES))
+        for al in alphabets:
+            if cls not in ("DFA", "NFA", "GNFA") and not al and rng.random() < 0.5:
+                continue
+            accepted = []
+            for tag, kw in DG.degenerate_defs(cls, al, style):
+                docs = G.accepted_by_docs(cls, kw)
+                impl = check_validate(ctx, cls, kw, "degenerate", "ok" if docs else None)
+                ctx.stat(f"degenerate:{cls}:{'accepted' if impl == 'ok' else 'refused'}")
+                if impl == "ok":
+                    accepted.append((tag, kw))
+            # unary operations / runs / option combinations: every accepted shape in thorough, a sample in quick
+            sample = accepted if ctx.thorough() else rng.sample(accepted, min(len(accepted), ctx.budget(6, 0)))
+            for tag, kw in sample:
+                use_definition(ctx, cls, kw, rng, f"degenerate:{tag}")
+                if rng.random() < 0.5:
+                    options_check(ctx, cls, kw, rng, f"degenerate:{tag}")
+            if not M.binary_ops(cls):
+                continue
+            ops = M.binary_ops(cls)
+            pairs = [(x, y) for x in accepted for y in accepted]
+            rng.shuffle(pairs)
+            n_pairs = len(pairs) if ctx.thorough() else min(len(pairs), ctx.budget(160, 0))
+            for (tx, kx), (ty, ky) in pairs[:n_pairs]:
+                # each pair: the structural operations always (they build tables by hand), one comparison
+                for name, fn in ops:
+                    if name.split(".")[1].startswith("__") or name.endswith(("issubset", "issuperset", "isdisjoint")):
+                        if rng.random() < 0.85:
+                            continue
+                    binary_under_options(ctx, cls, name, fn, kx, ky, M.arg_pack(rng, al), f"degenerate:{tx} × {ty}")
+            if n_pairs == len(pairs):
+                ctx.exhaustive(f"all ordered pairs of the {len(accepted)} accepted degenerate {cls} definitions over "
+                               f"{set(al) or '{}'} × every binary method × 4 option combinations")
+            if al:
+                for tag, kw in rng.sample(accepted, min(len(accepted), ctx.budget(10, 60))):
+                    k2 = G.rand_def(rng, cls, alphabet=sorted(al))
+                    name, fn = rng.choice(ops)
+                    a = M.arg_pack(rng, al)
+                    binary_under_options(ctx, cls, name, fn, kw, k2, a, f"degenerate:{tag} × random")
+                    binary_under_options(ctx, cls, name, fn, k2, kw, a, f"random × degenerate:{tag}")
 
 
 # ------------------------------------------------------------------ corpus
@@ -507,6 +617,7 @@ def run(ctx: Ctx):
     ctx.stat("documented_table:operations", len(table))
     ctx.stat("documented_table:operations_that_may_raise", sum(1 for v in table.values() if v))
     corpus(ctx, rng)
+    degenerate_family(ctx, rng)
     for _ in range(ctx.budget(6, 60)):
         temporaries_probe(ctx, rng)
 
@@ -621,10 +732,14 @@ def replay(ctx: Ctx, path: str) -> int:
                 with M.options(False, False):
                     tres = run_op(fn, tx[1], ty[1], a)
                 compare_twin(ctx, rp["op"], res, tres, lhs["input_symbols"], rp)
+    elif kind == "binary_options":
+        lhs, rhs = eval(rp["lhs"], _env()), eval(rp["rhs"], _env())
+        binary_under_options(ctx, cls, rp["op"], dict(M.binary_ops(cls))[rp["op"]], lhs, rhs, rp["args"], "replay")
     elif kind == "options":
         kw = eval(rp["kwargs"], _env())
+        rhs = eval(rp["rhs"], _env()) if rp.get("rhs") else None
         for _ in range(10):
-            options_check(ctx, cls, kw, rng, "replay")
+            options_check(ctx, cls, kw, rng, "replay", kw2=rhs)
     elif kind == "temporary":
         from automata.fa.dfa import DFA
         kw, kw2 = eval(rp["kwargs"], _env()), eval(rp["rhs"], _env())
